@@ -41,6 +41,11 @@ type scenario struct {
 func body(c *hk.Ctx) {
 	nProd := 1 + c.W(6, "producers")
 	big := c.W(8, "big-backlog") == 7 // a few runs build a backlog of thousands
+	huge := c.W(40, "huge-burst") == 39 // rare: more events than the intake queue holds, no pauses
+	if huge {
+		nProd = 2 + c.W(3, "producers-huge")
+		c.Count("probe.huge_burst_run")
+	}
 	sc := &scenario{Producers: nProd}
 	c.Scenario = sc
 
@@ -93,6 +98,10 @@ func body(c *hk.Ctx) {
 	}
 
 	w := event.NewWriterForVerif("topic", write)
+	if huge && c.W(2, "starve-batching-loop") == 1 {
+		c.S.Starve(c.S.LastSpawnedID()) // the batching loop is the second goroutine the writer starts
+		c.Count("probe.batching_loop_starved")
+	}
 
 	var wg simsync.WaitGroup
 	accepted := make([][]produced, nProd)
@@ -100,6 +109,9 @@ func body(c *hk.Ctx) {
 		n := 1 + c.W(30, "events")
 		if big {
 			n = 300 + c.W(700, "events-big")
+		}
+		if huge {
+			n = 10500/nProd + c.W(500, "events-huge")
 		}
 		sc.Events = append(sc.Events, n)
 		bursts := 1 + c.W(3, "bursts")
